@@ -1,22 +1,35 @@
 ----------------------------- MODULE FillAbsentMC -----------------------------
 (* C20: every presence pattern of every interval of at most MaxLen minutes      *)
-(* (plus an optional candle after the interval), symbolic distinct candle       *)
-(* values; the implementation-shaped function must satisfy the property, and    *)
-(* every pattern is exported (PATTERN lines) to be replayed into the real       *)
-(* _fill_absent_candles.                                                        *)
+(* (plus an optional candle after the interval) combined with value-level       *)
+(* corner cases: any subset of the provided candles closes at exactly 0, the    *)
+(* first provided candle may open at 0, and all prices may be equal (flat       *)
+(* market); otherwise the values are distinct.  The implementation-shaped       *)
+(* function must satisfy the property (count, order, provided candles           *)
+(* unchanged, open/close/high/low/volume VALUES of every filler), and every     *)
+(* case is exported (PATTERN lines) to be replayed into the real                *)
+(* _fill_absent_candles.  QTruthy = TRUE checks the named deviation instead     *)
+(* (TLC must then find the close = 0 counter-example).                          *)
 EXTENDS FillAbsent, TLC, Json
-CONSTANTS MaxLen, Starts, Export
-VARIABLES start, len, present, extra, done
-vars == <<start, len, present, extra, done>>
-Candle(m) == <<m, 10 * m + 1, 10 * m + 2, 10 * m + 3, 10 * m, m + 1, m + 1>>      \* distinct symbolic values
+CONSTANTS MaxLen, Starts, Export, QTruthy
+VARIABLES start, len, present, extra, zero, zopen, flat, done
+vars == <<start, len, present, extra, zero, zopen, flat, done>>
+Min2(a, b) == IF a < b THEN a ELSE b
+Max2(a, b) == IF a > b THEN a ELSE b
 RECURSIVE SetToSeq(_)
 SetToSeq(S) == IF S = {} THEN <<>> ELSE LET m == CHOOSE x \in S : \A y \in S : x <= y IN <<m>> \o SetToSeq(S \ {m})
-Given == LET ms == SetToSeq({start + p - 1 : p \in present} \cup (IF extra THEN {start + len + 1} ELSE {}))
-         IN [j \in 1..Len(ms) |-> Candle(ms[j])]
+Minutes == SetToSeq({start + p - 1 : p \in present} \cup (IF extra THEN {start + len + 1} ELSE {}))
+\* candle of minute m, the j-th provided one
+Candle(m, j) ==
+  LET o == IF j = 1 /\ zopen THEN 0 ELSE IF flat THEN 5 ELSE 10 * m + 1
+      c == IF (m - start + 1) \in zero THEN 0 ELSE IF flat THEN 5 ELSE 10 * m + 2
+  IN <<m, o, c, Max2(o, c) + (IF flat THEN 0 ELSE 1), Min2(o, c), m + 1, m + 1>>
+Given == [j \in 1..Len(Minutes) |-> Candle(Minutes[j], j)]
 Init == /\ start \in Starts /\ len \in 1..MaxLen /\ present \in SUBSET (1..len) /\ extra \in BOOLEAN
-        /\ (present # {} \/ extra) /\ done = FALSE
-Next == /\ ~done /\ done' = TRUE /\ UNCHANGED <<start, len, present, extra>>
+        /\ (present # {} \/ extra) /\ zero \in SUBSET present /\ zopen \in BOOLEAN /\ flat \in BOOLEAN
+        /\ (flat => (zero = {} /\ ~zopen)) /\ done = FALSE
+Next == /\ ~done /\ done' = TRUE /\ UNCHANGED <<start, len, present, extra, zero, zopen, flat>>
         /\ (Export => PrintT(<<"PATTERN", ToJson([start |-> start, end |-> start + len - 1, given |-> Given])>>))
 Spec == Init /\ [][Next]_vars
-FillIsGaplessAndFaithful == FillVerdict(Given, start, start + len - 1, ImplFill(Given, start, start + len - 1)) = "ok"
+Out == IF QTruthy THEN ImplFillTruthy(Given, start, start + len - 1) ELSE ImplFill(Given, start, start + len - 1)
+FillIsGaplessAndFaithful == FillVerdict(Given, start, start + len - 1, Out) = "ok"
 =============================================================================
